@@ -108,6 +108,8 @@ func main() {
 		fn   func(*pkgSrc) (string, error)
 	}{
 		{"MaskProg.lean", genMask},
+		{"Facts.lean", genFacts},
+		{"IntFns.lean", genIntFns},
 	}
 	for _, g := range gens {
 		s, err := g.fn(p)
